@@ -249,36 +249,38 @@ class task_group {
 // ---- combinable --------------------------------------------------------------------
 template <typename T>
 class combinable {
-  mutable std::vector<std::pair<bool, T>> slots_;
-  std::function<T()> init_;
+  // one lazily created slot per virtual worker; T need not be copyable or movable
+  mutable std::vector<std::unique_ptr<T>> slots_;
+  std::function<T*()> make_;
  public:
-  combinable() : init_([] { return T(); }) { reset(); }
+  combinable() : make_([] { return new T(); }) { reset(); }
   template <typename F, typename = decltype(std::declval<F>()())>
-  explicit combinable(F f) : init_(f) { reset(); }
-  combinable(const combinable& o) : slots_(o.slots_), init_(o.init_) {}
-  combinable& operator=(const combinable& o) { slots_ = o.slots_; init_ = o.init_; return *this; }
+  explicit combinable(F f) : make_([f] { return new T(f()); }) { reset(); }
+  combinable(const combinable&) = delete;
+  combinable& operator=(const combinable&) = delete;
   void clear() { reset(); }
-  void reset() { slots_.clear(); slots_.resize(vt::ctl().nworkers > 0 ? vt::ctl().nworkers : 1); for (auto& s : slots_) s.first = false; }
+  void reset() { slots_.clear(); slots_.resize(vt::ctl().nworkers > 0 ? vt::ctl().nworkers : 1); }
   T& local() {
     if ((int)slots_.size() <= vt::ctl().worker) slots_.resize(vt::ctl().worker + 1);
     auto& s = slots_[vt::ctl().worker];
-    if (!s.first) { s.first = true; s.second = init_(); }
-    return s.second;
+    if (!s) s.reset(make_());
+    return *s;
   }
   T& local(bool& exists) {
     if ((int)slots_.size() <= vt::ctl().worker) slots_.resize(vt::ctl().worker + 1);
-    exists = slots_[vt::ctl().worker].first; return local();
+    exists = (bool)slots_[vt::ctl().worker]; return local();
   }
   template <typename F> void combine_each(F f) const {
     std::vector<size_t> order;
-    for (size_t i = 0; i < slots_.size(); i++) if (slots_[i].first) order.push_back(i);
+    for (size_t i = 0; i < slots_.size(); i++) if (slots_[i]) order.push_back(i);
     if (vt::ctl().mode != 1) for (size_t i = order.size(); i > 1; --i) std::swap(order[i - 1], order[vt::below(i)]);
-    for (size_t i : order) f(slots_[i].second);
+    for (size_t i : order) f(*slots_[i]);
   }
   template <typename F> T combine(F f) const {
-    bool any = false; T acc = init_();
-    combine_each([&](const T& x) { if (!any) { acc = x; any = true; } else acc = f(acc, x); });
-    return acc;
+    bool any = false; std::unique_ptr<T> acc;
+    combine_each([&](const T& x) { if (!any) { acc.reset(new T(x)); any = true; } else *acc = f(*acc, x); });
+    if (!any) acc.reset(make_());
+    return *acc;
   }
 };
 template <typename T> using enumerable_thread_specific = combinable<T>;
